@@ -165,6 +165,36 @@ def run(tier, replay=None):
                     run_.diverge("mode=legacy slow-reader answers-dropped", "%d requests were accepted (202) while the stream reader stalled, %d answers arrived, %d twice"
                                  % (s["accepted"], s["answered"], s["dups"]), rp)
                 run_.nontriv(["slow", s["sent"]])
+    # exactly one answer also when the outcome is an error: every frame carrying the request's id is counted on the wire
+    from checks import rpccommon as rc
+    errs = [("unknown-tool", '{"jsonrpc":"2.0","id":%d,"method":"tools/call","params":{"name":"no-such-tool","arguments":{}}}'),
+            ("unknown-method", '{"jsonrpc":"2.0","id":%d,"method":"verif/unknown"}'),
+            ("handler-error", '{"jsonrpc":"2.0","id":%d,"method":"tools/call","params":{"name":"t-err","arguments":{"nonce":"e"}}}'),
+            ("soft-error", '{"jsonrpc":"2.0","id":%d,"method":"tools/call","params":{"name":"t-iserr","arguments":{"nonce":"e"}}}'),
+            ("bad-params", '{"jsonrpc":"2.0","id":%d,"method":"prompts/get","params":{"name":5}}'),
+            ("unknown-prompt", '{"jsonrpc":"2.0","id":%d,"method":"prompts/get","params":{"name":"nope"}}'),
+            ("unknown-resource", '{"jsonrpc":"2.0","id":%d,"method":"resources/read","params":{"uri":"verif://nope"}}')]
+    ejobs = []
+    for kind in rc.KINDS:
+        ejobs.append((kind, [{"id": name, "body": body % (7000 + k), "sse": kind == "sse", "expect_answer": True} for k, (name, body) in enumerate(errs)], "rich"))
+    for (kind, eitems, _), out in zip(ejobs, rc.run_probes(ejobs)):
+        if "_crash" in out:
+            run_.diverge("mode=%s process-crash" % kind, "the server process crashed: %s" % out["_crash"][:1200], {"cmd": ["rpcprobe"], "input": {"kind": kind, "set": "rich", "items": eitems}})
+            continue
+        for k, (it, obs) in enumerate(zip(eitems, out["obs"])):
+            run_.evaluations += 1
+            n_ans = 0
+            for f in obs["frames"]:
+                try:
+                    m = json.loads(f)
+                except ValueError:
+                    continue
+                if isinstance(m, dict) and "method" not in m and m.get("id") == 7000 + k:
+                    n_ans += 1
+            if n_ans != 1:
+                run_.diverge("mode=%s outcome=%s answers=%d" % (kind, it["id"], n_ans), "request %s on %s was answered %d times: %s" % (it["body"], kind, n_ans, [f[:160] for f in obs["frames"]]),
+                             {"cmd": ["rpcprobe"], "input": {"kind": kind, "set": "rich", "items": [it]}, "observed": obs})
+            run_.nontriv(["err-outcome", kind, it["id"]])
     had = bool(run_.violations) or bool(run_.known_hit)
     rej = tracebatch.validate(run_, "TraceCorrelation", "TraceCorrelation.cfg", items, sep={"e": "reset"}, max_lines=6000)
     for tid, (pos, line) in rej.items():
